@@ -10,17 +10,24 @@ import (
 	"errors"
 	"fmt"
 	"math/rand/v2"
+	"net/http"
+	"path/filepath"
 	"sort"
 	"strings"
 	"sync"
+	"sync/atomic"
 	"testing"
 	"testing/synctest"
 	"time"
 
 	"github.com/tailscale/setec/client/setec"
+	"github.com/tailscale/setec/types/api"
 
 	"verif/harness/internal/evid"
 	"verif/harness/internal/fakesvc"
+	"verif/harness/internal/httpdrv"
+	"verif/harness/internal/realdb"
+	"verif/harness/internal/refmodel"
 )
 
 type caller struct {
@@ -35,6 +42,8 @@ type caller struct {
 	Err      string        `json:"err,omitempty"`
 	Value    string        `json:"value,omitempty"`
 	Panic    string        `json:"panic,omitempty"`
+
+	handle setec.Secret
 }
 
 type nameCase struct {
@@ -102,8 +111,11 @@ func TestC16(t *testing.T) {
 	}
 	if r.Only < 0 {
 		stress(t, r)
+		for i := 0; i < r.N(20, 200); i++ {
+			realClientCancel(t, r, i)
+		}
 	}
-	r.Require("lookups_disabled_cases", "lookups_enabled_cases", "shared_flights", "failed_lookups", "hang_bounded_callers", "retry_after_foreign_cancel", "successful_lookups", "stress_lookups", "cases_with_failing_cache")
+	r.Require("lookups_disabled_cases", "lookups_enabled_cases", "shared_flights", "failed_lookups", "hang_bounded_callers", "retry_after_foreign_cancel", "successful_lookups", "stress_lookups", "cases_with_failing_cache", "handles_followed_a_later_poll", "real_client_cancel_cases")
 	r.Rule("seeded cases: AllowLookup on/off; 1-2 undeclared names each with a service mode (ok, slow D, fail, fail-then-ok, hang for ever, not found) and 1-6 callers (LookupSecret / NewUpdater / Fields.Apply) with start offsets and contexts (background, deadline 1 s/1 min/10 min, cancelled at a random instant). Distinct = (AllowLookup, service mode, number of callers, set of context kinds, set of caller outcomes)")
 }
 
@@ -202,6 +214,7 @@ func runCase(t *testing.T, r *evid.Run, c *tcase) {
 						h, err = st.LookupSecret(ctx, nc.Name)
 						if err == nil {
 							cl.Value = string(h.Get())
+							cl.handle = h
 						}
 					case "updater":
 						var u *setec.Updater[string]
@@ -410,6 +423,24 @@ func runCase(t *testing.T, r *evid.Run, c *tcase) {
 				if !polled {
 					fail("looked-up-secret-not-polled", fmt.Sprintf("%q was looked up but the next poll does not ask for it", nc.Name), nil)
 				}
+				// "polled like any other": a new version reaches every handle that was given out
+				nv := []byte("rotated-" + nc.Name)
+				svc.Set(nc.Name, 8, nv)
+				if err := st.Refresh(context.Background()); err != nil && !c.CacheFails { // (a cache that cannot be written makes the poll report an error; the values are installed all the same)
+					fail("refresh-fails", err.Error(), nil)
+				}
+				for i, cl := range nc.Callers {
+					if cl.handle != nil {
+						r.Count("handles_followed_a_later_poll", 1)
+						if got := string(cl.handle.Get()); got != string(nv) {
+							fail("looked-up-handle-not-live", fmt.Sprintf("the handle caller %d of %q received yields %q after a poll installed %q", i, nc.Name, got, nv), map[string]any{"log": log})
+							break
+						}
+					}
+				}
+				if hh := st.Secret(nc.Name); hh == nil || string(hh.Get()) != string(nv) {
+					fail("looked-up-handle-not-live", fmt.Sprintf("Secret(%q) does not yield the value a later poll installed", nc.Name), nil)
+				}
 			} else {
 				r.Count("failed_lookups", 1)
 				if h != nil {
@@ -538,4 +569,116 @@ func stress(t *testing.T, r *evid.Run) {
 		st.Close()
 		r.Eval(1)
 	}
+}
+
+// gateRT is an http.RoundTripper that holds the first request for a path until its context ends.
+type gateRT struct {
+	next    func(*http.Request) (*http.Response, error)
+	mu      sync.Mutex
+	held    bool
+	holding chan struct{}
+}
+
+func (g *gateRT) RoundTrip(req *http.Request) (*http.Response, error) {
+	g.mu.Lock()
+	first := !g.held
+	g.held = true
+	g.mu.Unlock()
+	if first {
+		close(g.holding)
+		<-req.Context().Done()
+		return nil, req.Context().Err()
+	}
+	return g.next(req)
+}
+
+// realClientCancel: the same "not failed merely because another caller's context ended" clause, with the
+// REAL network client (net/http wraps what the transport returns), a real server and a real database.
+func realClientCancel(t *testing.T, r *evid.Run, idx int) {
+	r.Eval(1)
+	dir := evid.TempDir(t)
+	d, err := realdb.Open(filepath.Join(dir, "db"), realdb.DummyKey("c16"))
+	if err != nil {
+		t.Fatal(err)
+	}
+	su := realdb.Super()
+	d.Put(su, "known", []byte("k"))
+	d.Put(su, "shared", []byte("shared-value"))
+	srv, err := httpdrv.New(d)
+	if err != nil {
+		t.Fatal(err)
+	}
+	const addr = "100.64.0.16:16"
+	srv.SetWho(addr, httpdrv.Who{Login: "c16@verif", Node: "c16", Rules: []refmodel.Rule{{Actions: []string{"get"}, Patterns: []string{"*"}}}})
+	known := setec.Client{Server: "http://setec.verif", DoHTTP: srv.ClientDo(addr)}
+	st, err := setec.NewStore(context.Background(), setec.StoreConfig{Client: known, Secrets: []string{"known"}, AllowLookup: true, PollInterval: -1, Logf: func(string, ...any) {}})
+	if err != nil {
+		t.Fatal(err)
+	}
+	defer st.Close()
+	// from now on the store talks through net/http with a transport that parks the first request
+	g := &gateRT{next: srv.ClientDo(addr), holding: make(chan struct{})}
+	hc := &http.Client{Transport: g}
+	st2, err := setec.NewStore(context.Background(), setec.StoreConfig{Client: swapClient{known}, Secrets: []string{"known"}, AllowLookup: true, PollInterval: -1, Logf: func(string, ...any) {}})
+	if err != nil {
+		t.Fatal(err)
+	}
+	defer st2.Close()
+	swap.Store(&setec.Client{Server: "http://setec.verif", DoHTTP: hc.Do})
+	defer swap.Store(nil)
+	useDeadline := idx%2 == 1
+	ctxA, cancelA := context.WithCancel(context.Background())
+	if useDeadline {
+		ctxA, cancelA = context.WithTimeout(context.Background(), 60*time.Millisecond)
+	}
+	defer cancelA()
+	errA := make(chan error, 1)
+	go func() { _, err := st2.LookupSecret(ctxA, "shared"); errA <- err }()
+	select {
+	case <-g.holding:
+	case <-time.After(20 * time.Second):
+		r.Inconclusive("real client cancel: the first request was never sent")
+		return
+	}
+	type res struct {
+		h   setec.Secret
+		err error
+	}
+	resB := make(chan res, 1)
+	go func() { h, err := st2.LookupSecret(context.Background(), "shared"); resB <- res{h, err} }()
+	time.Sleep(5 * time.Millisecond) // let B join A's request
+	if !useDeadline {
+		cancelA()
+	}
+	<-errA
+	select {
+	case b := <-resB:
+		r.Count("real_client_cancel_cases", 1)
+		r.Distinct(fmt.Sprintf("real-client leader-ends-by-deadline=%t", useDeadline))
+		if b.err != nil {
+			r.Violation("failed-by-foreign-cancellation", -1, fmt.Sprintf("real client case %d: caller B (context.Background()) was failed with %q because caller A's context ended", idx, b.err), nil)
+		} else if string(b.h.Get()) != "shared-value" {
+			r.Violation("handle-wrong-bytes", -1, "real client: wrong bytes", nil)
+		}
+	case <-time.After(30 * time.Second):
+		r.Inconclusive("real client cancel: caller B did not return within 30 s")
+	}
+}
+
+// swapClient lets the store's client be replaced after construction (the initial fetch goes through the plain one).
+var swap atomic.Pointer[setec.Client]
+
+type swapClient struct{ first setec.Client }
+
+func (s swapClient) cur() setec.Client {
+	if c := swap.Load(); c != nil {
+		return *c
+	}
+	return s.first
+}
+func (s swapClient) Get(ctx context.Context, name string) (*api.SecretValue, error) {
+	return s.cur().Get(ctx, name)
+}
+func (s swapClient) GetIfChanged(ctx context.Context, name string, v api.SecretVersion) (*api.SecretValue, error) {
+	return s.cur().GetIfChanged(ctx, name, v)
 }
